@@ -144,4 +144,214 @@ def held (s : St) : Nat := s.gets - s.backs
 
 end LM
 
+/-! ## standard pool (`eventPool`): ring of `capacity` slots with the free1/free2 two-phase flags -/
+namespace Std
+
+structure Slot where
+  f1 : Bool := true            -- free1[x]: the slot holds an event that may be taken
+  f2 : Bool := true            -- free2[x]: false = the event is out, the slot may be refilled
+  ev : Option Nat := none      -- events[x] (event identity = its initial slot index)
+  own : Option Nat := none     -- ghost: the reader between its successful CAS and its Store on this slot
+  deriving DecidableEq, Repr, Inhabited
+
+/-- program counter of a reader; the comment is the NEXT statement it executes -/
+inductive Pc
+  | idle
+  | tkt                           -- x := (p.getCounter.Inc() - 1) % capacity; tries = 0
+  | try_ (x c t : Nat)            -- if x < backCounter.Load() && free1[x].CAS(true,false) (c-th of 3) ; t = tries
+  | slowInc (x : Nat)             -- p.slowWaiters.Inc()
+  | wantLock (x : Nat)            -- p.getMu.Lock()
+  | willWait (x : Nat)            -- [verifGate] p.getCond.Wait(): enqueue + unlock
+  | parked (x : Nat)
+  | woken (x : Nat)               -- Wait re-locks getMu
+  | unlocking (x : Nat)           -- p.getMu.Unlock()
+  | postUnlock (x : Nat)          -- p.slowWaiters.Dec(); tries = 0
+  | taken (x : Nat)               -- event := events[x]; events[x] = nil; free2[x].Store(false)
+  | out (e : Nat)                 -- p.inUseEvents.Inc()
+  | holding (e : Nat)             -- get returned event e
+  | btkt (e : Nat)                -- back: x := (p.backCounter.Inc() - 1) % capacity
+  | bspin (x e : Nat)             -- free2[x].CAS(false,true)
+  | returning (x e : Nat)         -- events[x] = event; free1[x].Store(true)
+  | bdec                          -- p.inUseEvents.Dec()
+  | bbc                           -- p.getCond.Broadcast()
+  deriving DecidableEq, Repr, Inhabited
+
+/-- where event `e` is (ghost) -/
+inductive Loc
+  | inSlot (x : Nat)
+  | heldBy (r : Nat)
+  deriving DecidableEq, Repr, Inhabited
+
+structure St where
+  cap : Nat := 0
+  getCtr : Nat := 0
+  backCtr : Nat := 0
+  inUse : Nat := 0
+  sw : Nat := 0
+  mu : Option Nat := none
+  slots : List Slot := []
+  pcs : List Pc := []
+  loc : List Loc := []            -- ghost, indexed by event
+  hbArmed : Bool := false
+  panicked : Bool := false        -- a nil event was taken out of a slot (Go: nil dereference)
+  gets : Nat := 0
+  backs : Nat := 0
+  deriving DecidableEq, Repr
+
+inductive Op
+  | start (r : Nat) | tkt (r : Nat) | cas (r : Nat) | swInc (r : Nat) | lock (r : Nat)
+  | waitEnq (r : Nat) | relock (r : Nat) | unlock (r : Nat) | swDec (r : Nat)
+  | take (r : Nat) | iInc (r : Nat)
+  | bstart (r : Nat) | btkt (r : Nat) | bcas (r : Nat) | bput (r : Nat) | bDec (r : Nat) | bBcast (r : Nat)
+  | hbRead | hbFire
+  deriving DecidableEq, Repr
+
+def init (cap n : Nat) : St :=
+  { cap := cap, backCtr := cap,
+    slots := (List.range cap).map (fun i => { ev := some i }),
+    loc := (List.range cap).map Loc.inSlot,
+    pcs := List.replicate n .idle }
+
+def wake : Pc → Pc
+  | .parked x => .woken x
+  | pc => pc
+
+def broadcast (s : St) : St := { s with pcs := s.pcs.map wake }
+def setPc (s : St) (r : Nat) (pc : Pc) : St := { s with pcs := s.pcs.set r pc }
+def setSlot (s : St) (x : Nat) (sl : Slot) : St := { s with slots := s.slots.set x sl }
+
+/-- a failed round of the `get` loop: three CAS per round, `tries++`, every third round parks -/
+def casFail (x c t : Nat) : Pc :=
+  if c < 2 then .try_ x (c + 1) t
+  else if t < 2 then .try_ x 0 (t + 1)   -- tries%maxTries != 0: runtime.Gosched()
+  else .slowInc x                        -- slowest path
+
+def step? (s : St) : Op → Option St
+  | .start r => if s.pcs[r]? = some .idle then some (setPc s r .tkt) else none
+  | .tkt r =>
+    if s.pcs[r]? = some .tkt then
+      some (setPc { s with getCtr := s.getCtr + 1 } r (.try_ (s.getCtr % s.cap) 0 0))
+    else none
+  | .cas r =>
+    match s.pcs[r]? with
+    | some (.try_ x c t) =>
+      match s.slots[x]? with
+      | some sl =>
+        if x < s.backCtr ∧ sl.f1 = true then
+          some (setPc (setSlot s x { sl with f1 := false, own := some r }) r (.taken x))
+        else some (setPc s r (casFail x c t))
+      | none => none
+    | _ => none
+  | .swInc r =>
+    match s.pcs[r]? with
+    | some (.slowInc x) => some (setPc { s with sw := s.sw + 1 } r (.wantLock x))
+    | _ => none
+  | .lock r =>
+    match s.pcs[r]? with
+    | some (.wantLock x) => if s.mu = none then some (setPc { s with mu := some r } r (.willWait x)) else none
+    | _ => none
+  | .waitEnq r =>
+    match s.pcs[r]? with
+    | some (.willWait x) => some (setPc { s with mu := none } r (.parked x))
+    | _ => none
+  | .relock r =>
+    match s.pcs[r]? with
+    | some (.woken x) => if s.mu = none then some (setPc { s with mu := some r } r (.unlocking x)) else none
+    | _ => none
+  | .unlock r =>
+    match s.pcs[r]? with
+    | some (.unlocking x) => some (setPc { s with mu := none } r (.postUnlock x))
+    | _ => none
+  | .swDec r =>
+    match s.pcs[r]? with
+    | some (.postUnlock x) => some (setPc { s with sw := s.sw - 1 } r (.try_ x 0 0))
+    | _ => none
+  | .take r =>
+    match s.pcs[r]? with
+    | some (.taken x) =>
+      match s.slots[x]? with
+      | some sl =>
+        match sl.ev with
+        | some e =>
+          some (setPc { setSlot s x { sl with ev := none, f2 := false, own := none } with
+                        loc := s.loc.set e (.heldBy r) } r (.out e))
+        | none => some { s with panicked := true }
+      | none => none
+    | _ => none
+  | .iInc r =>
+    match s.pcs[r]? with
+    | some (.out e) => some (setPc { s with inUse := s.inUse + 1, gets := s.gets + 1 } r (.holding e))
+    | _ => none
+  | .bstart r =>
+    match s.pcs[r]? with
+    | some (.holding e) => some (setPc { s with backs := s.backs + 1 } r (.btkt e))
+    | _ => none
+  | .btkt r =>
+    match s.pcs[r]? with
+    | some (.btkt e) => some (setPc { s with backCtr := s.backCtr + 1 } r (.bspin (s.backCtr % s.cap) e))
+    | _ => none
+  | .bcas r =>
+    match s.pcs[r]? with
+    | some (.bspin x e) =>
+      match s.slots[x]? with
+      | some sl =>
+        if sl.f2 = false then
+          some (setPc (setSlot s x { sl with f2 := true, own := some r }) r (.returning x e))
+        else some s                      -- spin / time.Sleep(5ms)
+      | none => none
+    | _ => none
+  | .bput r =>
+    match s.pcs[r]? with
+    | some (.returning x e) =>
+      match s.slots[x]? with
+      | some sl =>
+        some (setPc { setSlot s x { sl with ev := some e, f1 := true, own := none } with
+                      loc := s.loc.set e (.inSlot x) } r .bdec)
+      | none => none
+    | _ => none
+  | .bDec r =>
+    if s.pcs[r]? = some .bdec then some (setPc { s with inUse := s.inUse - 1 } r .bbc) else none
+  | .bBcast r =>
+    if s.pcs[r]? = some .bbc then some (broadcast (setPc s r .idle)) else none
+  | .hbRead => some { s with hbArmed := decide (s.sw > 0) && decide (s.inUse < s.cap) }
+  | .hbFire => some (if s.hbArmed then { broadcast s with hbArmed := false } else s)
+
+/-- next op of reader `r` when it can move by itself; `none` at the gate (`willWait`), while parked,
+    while the lock is taken, while a `back` spins on a slot that is not out, and outside get/back -/
+def nextOp (s : St) (r : Nat) : Option Op :=
+  match s.pcs[r]? with
+  | some .tkt => some (.tkt r)
+  | some (.try_ ..) => some (.cas r)
+  | some (.slowInc _) => some (.swInc r)
+  | some (.wantLock _) => if s.mu = none then some (.lock r) else none
+  | some (.woken _) => if s.mu = none then some (.relock r) else none
+  | some (.unlocking _) => some (.unlock r)
+  | some (.postUnlock _) => some (.swDec r)
+  | some (.taken _) => some (.take r)
+  | some (.out _) => some (.iInc r)
+  | some (.btkt _) => some (.btkt r)
+  | some (.bspin x _) =>
+    match s.slots[x]? with
+    | some sl => if sl.f2 = false then some (.bcas r) else none
+    | none => none
+  | some (.returning ..) => some (.bput r)
+  | some .bdec => some (.bDec r)
+  | some .bbc => some (.bBcast r)
+  | _ => none
+
+def runReader : Nat → St → Nat → St
+  | 0, s, _ => s
+  | fuel + 1, s, r =>
+    match nextOp s r with
+    | none => s
+    | some op =>
+      match step? s op with
+      | none => s
+      | some s' => runReader fuel s' r
+
+def cnt (s : St) (p : Pc → Bool) : Nat := s.pcs.countP p
+def held (s : St) : Nat := s.gets - s.backs
+
+end Std
+
 end FileD.Pool
